@@ -149,7 +149,7 @@ def cache_jobs(nr, nt, nsc, nsc_c):
             h.append("  __CPROVER_assert(LCF__sin_theta_[0] != LCF__sin_theta_[0], \"COVER:reached_end\");")
             h.append("}")
             tag = "[nr=%d,nt=%d,nsc=%d,nscC=%d,cacheProfile=%d,cacheGeometry=%d]" % (nr, nt, nsc, nsc_c, cd, cg)
-            j = Job("C03.B" + tag, "\n".join(c + h), "R", unwind=max(nr, nt) + 2, timeout=600,
+            j = Job("C03.B" + tag, "\n".join(c + h), "R", unwind=max(nr, nt) + 2, timeout=600, split=r"^OBL:", split_chunk=4, split_timeout=200,
                     bounded="grid shape fixed (fine %dx%d split %d, coarse split %d); radii, angles symbolic; geometry/profile functions uninterpreted" % (nr, nt, nsc, nsc_c),
                     functions=fns, covers={"COVER:reached_end"}, extra=["--max-field-sensitivity-array-size", "4096"])
             j.rules, j.hashes = rules, hashes
